@@ -18,6 +18,10 @@ import common as C
 
 MUTATORS = {"append", "extend", "update", "add", "pop", "clear", "remove", "insert", "setdefault", "sort", "reverse", "discard", "popitem", "appendleft", "popleft"}
 MUTABLE_CALLS = {"dict", "list", "set", "deque", "defaultdict", "OrderedDict", "bytearray"}
+# functions that change a setting of the whole interpreter / process: a call from library code outlives the call
+INTERP_SETTERS = {"set_int_max_str_digits", "setrecursionlimit", "setswitchinterval", "setprofile", "settrace", "setlocale", "chdir", "putenv", "unsetenv",
+                  "simplefilter", "filterwarnings", "resetwarnings", "setdefaulttimeout", "set_asyncgen_hooks", "setdlopenflags", "umask", "seed", "setcheckinterval"}
+ONE_SHOT_CALLS = {"iter", "map", "filter", "zip", "reversed", "enumerate"}
 MEMO_NAMES = {"lru_cache", "cache", "cached_property", "memoize", "memoized", "memoise", "memo", "singledispatch", "cached"}
 
 
@@ -115,6 +119,23 @@ def scan():
             nm = n.id if isinstance(n, ast.Name) else n.attr if isinstance(n, ast.Attribute) else None
             if nm in MEMO_NAMES and isinstance(getattr(n, "ctx", None), ast.Load):
                 sites.append((f"{mod}:line{n.lineno}", f"memo:{nm}", "use"))
+            # a setting of the whole interpreter changed by library code (outside xdis/bin, which is a program)
+            if isinstance(n, ast.Call) and not mod.startswith("xdis.bin"):
+                f = n.func
+                fn = f.attr if isinstance(f, ast.Attribute) else f.id if isinstance(f, ast.Name) else None
+                if fn in INTERP_SETTERS:
+                    sites.append((f"{mod}:line{n.lineno}", f"interp:{fn}", "call"))
+            if isinstance(n, (ast.Assign, ast.AugAssign, ast.Delete)) and not mod.startswith("xdis.bin"):
+                for t in (n.targets if isinstance(n, (ast.Assign, ast.Delete)) else [n.target]):
+                    if isinstance(t, ast.Subscript) and isinstance(t.value, ast.Attribute) and t.value.attr == "environ":
+                        sites.append((f"{mod}:line{n.lineno}", "interp:os.environ", "store"))
+        # a one-shot iterator bound at module level is consumed by its first reader: `X = (m for m in ...)`, `X = map(...)`
+        for st in tree.body:
+            if isinstance(st, ast.Assign) and (isinstance(st.value, ast.GeneratorExp)
+                                               or (isinstance(st.value, ast.Call) and isinstance(st.value.func, ast.Name) and st.value.func.id in ONE_SHOT_CALLS)):
+                for t in st.targets:
+                    if isinstance(t, ast.Name):
+                        sites.append((f"{mod}:line{st.lineno}", f"iter:{t.id}", "one-shot iterator at module level"))
 
         def visit_fn(fn, qual, cls_aliases, enclosing_params):
             q = f"{qual}.{fn.name}" if qual else fn.name
